@@ -151,6 +151,10 @@ def rule(fn, kind, expr, ordn, guards, contract):
     if fn in ('schemes/enc/v1.processSegments', 'schemes/enc/v1.readHeader'):
         if kind == 'assert':
             return '.typeInvariant "BufPool.New returns *[]byte and only such values are Put back (C08)"'
+        if kind == 'loop':
+            t = {'for ; !done; ': 'processSegments_terminates', 'for ; n < (segmentSize+1) && err == nil; ': 'fill_terminates',
+                 'for ; newlines < 3 && err == nil; ': 'readHeader_terminates'}[expr]
+            return thm('C01NoPanic', 'Kit.Enc.C01NoPanic.' + t, [])
         if fn.endswith('processSegments'):
             n = {'(*buf)[0]': ['hasCarryover'], '(*buf)[n:(segmentSize + 1)]': ['for n < (segmentSize+1) && err == nil'],
                  '(*buf)[n-1]': ['n > segmentSize'], '(*buf)[:n]': ['!(n == 0)']}.get(expr, [])
